@@ -276,10 +276,35 @@ func (r *rewriter) touchesRacy(n ast.Node) string {
 			return false
 		case *ast.SelectorExpr:
 			found = r.racyName(v)
+		case *ast.CallExpr:
+			found = r.plainStatAccess(v)
 		}
 		return true
 	})
 	return found
+}
+
+// plainStatAccess: the statistics objects (counters and gauges of the un-instrumented statistics library) are
+// updated with atomic read-modify-write operations, which commute and need no scheduling point. Reading a value or
+// overwriting one (Value, Set) is a plain load or store of shared state: a statement doing that gets a scheduling
+// point in front of it, so that a read-compute-write sequence built from them can be interleaved.
+func (r *rewriter) plainStatAccess(call *ast.CallExpr) string {
+	sel, ok := call.Fun.(*ast.SelectorExpr)
+	if !ok || (sel.Sel.Name != "Value" && sel.Sel.Name != "Set") {
+		return ""
+	}
+	t := r.info.TypeOf(sel.X)
+	if t == nil {
+		return ""
+	}
+	if p, ok := types.Unalias(t).(*types.Pointer); ok {
+		t = p.Elem()
+	}
+	n, ok := types.Unalias(t).(*types.Named)
+	if !ok || n.Obj().Pkg() == nil || n.Obj().Pkg().Path() != "github.com/kirk91/stats" {
+		return ""
+	}
+	return "stats." + n.Obj().Name() + "." + sel.Sel.Name
 }
 
 // markRacy records the statements of a function body that get an access point in front of them.
